@@ -105,7 +105,7 @@ def gen_plan(rng, index, tier):
         a = rng.choice(actors)
         pt = rng.choice(pts)
         uid += 1
-        op = rng.choice(["setp", "setp", "setp", "ndens", "temp", "dim", "height", "rotate", "std", "convert", "edge"])
+        op = rng.choice(["setp", "setp", "setp", "ndens", "temp", "dim", "height", "rotate", "std", "convert", "edge", "pitch"])
         if rng.random() < 0.04:
             op = "scopeassign"
         elif a["order"] > 11.0 and pt[0] == "EveryNode" and rng.random() < 0.5:
@@ -449,6 +449,20 @@ def op_edge(d, st, actor):
     d.dirty = True
 
 
+def op_pitch(d, st, actor):
+    """The lattice pitch of the core's grid changes between two writes (a grid-plate expansion)."""
+    r = actor.o.r
+    g = r.core.spatialGrid
+    f = 1.0 + 0.005 * (1 + st["u"] % 5)
+    if str(r.core.geomType).startswith("hex"):
+        g.changePitch(float(g.pitch) * f)
+    else:
+        px, py = g.pitch
+        g.changePitch(float(px) * f, float(py) * f)
+    d.probes["core_pitch_changed"] += 1
+    d.dirty = True
+
+
 def op_scopeassign(d, st, actor):
     """While a retainState scope is open on one block, a parameter nobody has assigned before is
     assigned on *another* block (outside the scope): that value is part of the state to be saved."""
@@ -490,7 +504,7 @@ def op_rewrite(d, st, actor):
     d.rewritten.append(f"c{int(r.p.cycle):02d}n{int(r.p.timeNode):02d}")
 
 
-OPS = {"rewrite": op_rewrite, "scopeassign": op_scopeassign, "convert": op_convert, "edge": op_edge, "setp": op_setp, "ndens": op_ndens, "temp": op_temp, "dim": op_dim, "height": op_height, "rotate": op_rotate, "std": op_std}
+OPS = {"rewrite": op_rewrite, "scopeassign": op_scopeassign, "convert": op_convert, "edge": op_edge, "pitch": op_pitch, "setp": op_setp, "ndens": op_ndens, "temp": op_temp, "dim": op_dim, "height": op_height, "rotate": op_rotate, "std": op_std}
 
 
 def refresh_derived(d, actor):
